@@ -12,7 +12,7 @@ import (
 func init() {
 	register(&propInfo{
 		ID:          "C17",
-		Explanation: "Path analysis of the keepalive mechanism: (R17.1) every blocking read of the socket is preceded, in the same function, by renewing the read deadline from the configured timeout; (R17.2) both the pong handler and the ping handler installed on the socket signal peer activity to the connection loop with a non-blocking send (this is what also re-arms the loop's idle timer), and the loop's activity arm renews the read deadline; (R17.3) the ping sender is a goroutine that, in a loop paced by the configured ping interval, writes a ping under the write lock and stops on its stop signal; (R17.4) keepalive (handlers + ping sender) is installed in the loop's prologue and again after every socket swap; (R17.5) the read deadline is renewed only on evidence of inbound activity — never on writes or on every loop iteration — so a silent peer is noticed while the client keeps sending; (R17.6) the ping interval and timeout options reach the connection object. (R17.8) the renewal really sets the deadline whenever a timeout is configured; (R17.9) a write deadline put on the socket is lifted before the writer unlocks or returns. R17.3 also: every tick of the ping timer writes a ping; (R17.10) a pong-less ping handler is installed only on a side that sends pings. (R17.11) the peer-activity channel is signalled only inside the pong/ping handlers; (R17.12) the client-side stream buffer always takes from its intake. (R17.13) the ping sender's stop signal is made per installation; (R17.14) a deadline on the dial is created per dial. (R17.15) every socket write is bounded: it is preceded, on every path on which a timeout is configured, by a SetWriteDeadline of a non-zero time that is not lifted again (searched through helpers and callers); WriteControl must be handed a non-zero deadline. The loop writes requests itself and takes the write lock in its dead-peer and stop arms, so an unbounded write parked on a silent peer blocks calls, detection and closer.",
+		Explanation: "Path analysis of the keepalive mechanism: (R17.1) every blocking read of the socket is preceded, in the same function, by renewing the read deadline from the configured timeout; (R17.2) both the pong handler and the ping handler installed on the socket signal peer activity to the connection loop with a non-blocking send (this is what also re-arms the loop's idle timer), and the loop's activity arm renews the read deadline; (R17.3) the ping sender is a goroutine that, in a loop paced by the configured ping interval, writes a ping under the write lock and stops on its stop signal; (R17.4) keepalive (handlers + ping sender) is installed in the loop's prologue and again after every socket swap; (R17.5) the read deadline is renewed only on evidence of inbound activity — never on writes or on every loop iteration — so a silent peer is noticed while the client keeps sending; (R17.6) the ping interval and timeout options reach the connection object. (R17.8) the renewal really sets the deadline whenever a timeout is configured; (R17.9) a write deadline put on the socket is lifted before the writer unlocks or returns. R17.3 also: every tick of the ping timer writes a ping; (R17.10) a pong-less ping handler is installed only on a side that sends pings. (R17.11) the peer-activity channel is signalled only inside the pong/ping handlers; (R17.12) the client-side stream buffer always takes from its intake. (R17.13) the ping sender's stop signal is made per installation; (R17.14) a deadline on the dial is created per dial. (R17.15) every socket write is bounded: it is preceded, on every path on which a timeout is configured, by a SetWriteDeadline of a non-zero time that is not lifted again (searched through helpers and callers); WriteControl must be handed a non-zero deadline. The loop writes requests itself and takes the write lock in its dead-peer and stop arms, so an unbounded write parked on a silent peer blocks calls, detection and closer. (R17.16) the ping/pong handlers take no mutex and write no message.",
 		NotDecided:  "Any time bound (how long detection takes, that ping interval < timeout/2 suffices), gorilla's delivery of control frames, timer arithmetic of the idle timer.",
 		Assumptions: []string{"gorilla/websocket invokes the registered ping/pong handlers from the reading goroutine when such control frames arrive", "websocket.PingMessage == 9"},
 		Run:         runC17,
@@ -38,6 +38,8 @@ func runC17(c *Ctx) {
 	c.stickyWriteDeadline("R17.9")
 	c.rule("R17.15", "every socket write is bounded: a write deadline is set, on every path on which a timeout is configured, before each message or control frame is written (a silent peer with a full window otherwise parks the writer, and with it the dead-peer detection, for ever)")
 	c.boundedSocketWrites("R17.15")
+	c.rule("R17.16", "a silent peer is noticed whatever the write side is doing: the ping / pong handlers run on the socket reader and take no mutex and write no message")
+	c.controlHandlersDoNotLock("R17.16")
 	c.rule("R17.2", "pong and ping handlers signal peer activity with a non-blocking send; the activity arm renews the read deadline")
 	c.rule("R17.3", "the ping sender loops on the configured interval, writes pings under the write lock and honours its stop signal")
 	c.rule("R17.4", "keepalive is installed in the loop prologue and after every socket swap")
